@@ -377,6 +377,11 @@ def r_cancel_targets(ctx: Ctx, rule: str):
         for c in ctx.distinct_sites(ctx.nodes(f, lambda m: any(e.kind in ("cancel", "maybe-cancel") for e in ctx.eff.of_node(m)))):
             copies = [x for x in ctx.nodes(f, lambda m: m.ast is c.ast and m.op == c.op)]
             recv = c.ast.func.value if isinstance(c.ast, ast.Call) and isinstance(c.ast.func, ast.Attribute) else None
+            if isinstance(c.ast, ast.Call) and not (isinstance(c.ast.func, ast.Attribute) and c.ast.func.attr == "cancel"):
+                # the bound method `<task>.cancel` handed to a call as a value
+                handed = [a for a in list(c.ast.args) + [k.value for k in c.ast.keywords] if isinstance(a, ast.Attribute) and a.attr == "cancel"]
+                if handed:
+                    recv = handed[0].value
             src: Set[str] = set()
             for x in copies:
                 src |= value_sources(ctx, x.func, x.env, recv)
